@@ -492,6 +492,9 @@ func (e *Exec) Reach(tag string) {
 }
 
 func (e *Exec) diffQuery(extra string, got sym.Result, label string) {
+	if !e.M.wantDiff() {
+		return
+	}
 	script := e.S.Standalone(extra)
 	e.M.recordDiff(script, got, label)
 }
